@@ -38,7 +38,10 @@ CONSTANTS
   EnvCancel,    \* the environment may cancel streaming callers
   EnvReadFail,  \* the environment may fail the client's transport read
   EnvStop,      \* the environment may stop the server
-  EarlyReturn   \* handlers may return before consuming what the caller sent
+  EarlyReturn,  \* handlers may return before consuming what the caller sent
+  AdvClient,    \* number of arbitrary envelopes an adversarial peer may send to the server (C12)
+  AdvServer     \* number of arbitrary envelopes an adversarial peer may send to the client (C13);
+                \* when > 0 there is no real server
 
 Calls == Unaries \cup Streams
 Workers == 1..NWorkers
@@ -80,14 +83,15 @@ VARIABLES
   wrpc, wrcur,      \* writer
   hpc, hrecv, hsentN, hres, hsawEOF, \* handlers (per id): pc, received count, sent count, return status
   waitFor,          \* cancelAndWaitForStreams: id being waited for
-  sReadFailed, stopped, serveRet
+  sReadFailed, stopped, serveRet,
+  advN              \* envelopes injected by the adversarial peer so far
 
 vars == <<c2s, s2c, nextId, idOf, muxLock, reg, respCh, respDone, rErr, mpc, mcur, cReadFailed,
           upc, ures, spc, sop, nsent, closed, cancelled, sres, rpc, rcur, sctx, rdone, rterm, rChClosed, prot,
           gotTrailer, srpc, srcur, srvLock, sreg, sch, hctx, hdoneSig, connCtx, wpc, wcur, wrpc, wrcur,
-          hpc, hrecv, hsentN, hres, hsawEOF, waitFor, sReadFailed, stopped, serveRet>>
+          hpc, hrecv, hsentN, hres, hsawEOF, waitFor, sReadFailed, stopped, serveRet, advN>>
 
-Ids == 1..Cardinality(Calls)
+Ids == 1..(IF Cardinality(Calls) < 2 THEN 2 ELSE Cardinality(Calls))
 CallOf(id) == CHOOSE c \in Calls : idOf[c] = id
 IsStreamId(id) == \E c \in Streams : idOf[c] = id
 Env(id, k) == [id |-> id, k |-> k]
@@ -106,13 +110,13 @@ Init ==
   /\ rpc = [c \in Streams |-> "off"] /\ rcur = [c \in Streams |-> Env(0, "")]
   /\ sctx = [c \in Streams |-> FALSE] /\ rdone = [c \in Streams |-> FALSE] /\ rterm = [c \in Streams |-> ""]
   /\ rChClosed = [c \in Streams |-> FALSE] /\ prot = [c \in Streams |-> Free] /\ gotTrailer = [c \in Streams |-> FALSE]
-  /\ srpc = "read" /\ srcur = Env(0, "") /\ srvLock = Free /\ sreg = {}
+  /\ srpc = (IF AdvServer > 0 THEN "end" ELSE "read") /\ srcur = Env(0, "") /\ srvLock = Free /\ sreg = {}
   /\ sch = [i \in Ids |-> <<>>] /\ hctx = {} /\ hdoneSig = {} /\ connCtx = FALSE
   /\ wpc = [w \in Workers |-> "take"] /\ wcur = [w \in Workers |-> Env(0, "")]
   /\ wrpc = "take" /\ wrcur = Env(0, "")
   /\ hpc = [i \in Ids |-> "off"] /\ hrecv = [i \in Ids |-> 0] /\ hsentN = [i \in Ids |-> 0]
   /\ hres = [i \in Ids |-> ""] /\ hsawEOF = [i \in Ids |-> FALSE]
-  /\ waitFor = NoId /\ sReadFailed = FALSE /\ stopped = FALSE /\ serveRet = FALSE
+  /\ waitFor = NoId /\ sReadFailed = FALSE /\ stopped = FALSE /\ serveRet = FALSE /\ advN = 0
 
 -----------------------------------------------------------------------------
 (* Helpers: the single writer of the server connection.  A process that     *)
@@ -131,21 +135,21 @@ UCheck(c) ==
   /\ UNCHANGED <<c2s, s2c, nextId, idOf, muxLock, reg, respCh, respDone, rErr, mpc, mcur, cReadFailed,
                  spc, sop, nsent, closed, cancelled, sres, rpc, rcur, sctx, rdone, rterm, rChClosed, prot,
                  gotTrailer, srpc, srcur, srvLock, sreg, sch, hctx, hdoneSig, connCtx, wpc, wcur, wrpc, wrcur,
-                 hpc, hrecv, hsentN, hres, hsawEOF, waitFor, sReadFailed, stopped, serveRet>>
+                 hpc, hrecv, hsentN, hres, hsawEOF, waitFor, sReadFailed, stopped, serveRet, advN>>
 
 \* allocate the id and register, in one critical section; D5: re-check the sticky error inside it
 URegister(c) ==
   /\ upc[c] = "reg" /\ muxLock = Free
   /\ IF Fixed("D5") /\ rErr
        THEN /\ upc' = [upc EXCEPT ![c] = "done"] /\ ures' = [ures EXCEPT ![c] = "err"]
-            /\ UNCHANGED <<nextId, idOf, reg>>
+            /\ UNCHANGED <<nextId, idOf, reg, advN>>
        ELSE /\ idOf' = [idOf EXCEPT ![c] = nextId] /\ nextId' = nextId + 1
             /\ reg' = reg \cup {nextId}
             /\ upc' = [upc EXCEPT ![c] = "write"] /\ UNCHANGED ures
   /\ UNCHANGED <<c2s, s2c, muxLock, respCh, respDone, rErr, mpc, mcur, cReadFailed,
                  spc, sop, nsent, closed, cancelled, sres, rpc, rcur, sctx, rdone, rterm, rChClosed, prot,
                  gotTrailer, srpc, srcur, srvLock, sreg, sch, hctx, hdoneSig, connCtx, wpc, wcur, wrpc, wrcur,
-                 hpc, hrecv, hsentN, hres, hsawEOF, waitFor, sReadFailed, stopped, serveRet>>
+                 hpc, hrecv, hsentN, hres, hsawEOF, waitFor, sReadFailed, stopped, serveRet, advN>>
 
 UWrite(c) ==
   /\ upc[c] = "write"
@@ -154,7 +158,7 @@ UWrite(c) ==
   /\ UNCHANGED <<s2c, nextId, idOf, muxLock, reg, respCh, respDone, rErr, mpc, mcur, cReadFailed, ures,
                  spc, sop, nsent, closed, cancelled, sres, rpc, rcur, sctx, rdone, rterm, rChClosed, prot,
                  gotTrailer, srpc, srcur, srvLock, sreg, sch, hctx, hdoneSig, connCtx, wpc, wcur, wrpc, wrcur,
-                 hpc, hrecv, hsentN, hres, hsawEOF, waitFor, sReadFailed, stopped, serveRet>>
+                 hpc, hrecv, hsentN, hres, hsawEOF, waitFor, sReadFailed, stopped, serveRet, advN>>
 
 \* select { response; done closed }
 UAwait(c) ==
@@ -169,7 +173,7 @@ UAwait(c) ==
   /\ UNCHANGED <<c2s, s2c, nextId, idOf, muxLock, reg, respDone, rErr, mpc, mcur, cReadFailed,
                  spc, sop, nsent, closed, cancelled, sres, rpc, rcur, sctx, rdone, rterm, rChClosed, prot,
                  gotTrailer, srpc, srcur, srvLock, sreg, sch, hctx, hdoneSig, connCtx, wpc, wcur, wrpc, wrcur,
-                 hpc, hrecv, hsentN, hres, hsawEOF, waitFor, sReadFailed, stopped, serveRet>>
+                 hpc, hrecv, hsentN, hres, hsawEOF, waitFor, sReadFailed, stopped, serveRet, advN>>
 
 UUnregister(c) ==
   /\ upc[c] = "unreg" /\ muxLock = Free
@@ -179,7 +183,7 @@ UUnregister(c) ==
   /\ UNCHANGED <<c2s, s2c, nextId, idOf, muxLock, respCh, rErr, mpc, mcur, cReadFailed, ures,
                  spc, sop, nsent, closed, cancelled, sres, rpc, rcur, sctx, rdone, rterm, rChClosed, prot,
                  gotTrailer, srpc, srcur, srvLock, sreg, sch, hctx, hdoneSig, connCtx, wpc, wcur, wrpc, wrcur,
-                 hpc, hrecv, hsentN, hres, hsawEOF, waitFor, sReadFailed, stopped, serveRet>>
+                 hpc, hrecv, hsentN, hres, hsawEOF, waitFor, sReadFailed, stopped, serveRet, advN>>
 
 -----------------------------------------------------------------------------
 (* Multiplexer read loop (multiplexer.go readLoop / handleResponse / closeError) *)
@@ -187,12 +191,12 @@ UUnregister(c) ==
 MuxRead ==
   /\ mpc = "read"
   /\ IF cReadFailed
-       THEN mpc' = "fail" /\ UNCHANGED <<s2c, mcur>>
+       THEN mpc' = "fail" /\ UNCHANGED <<s2c, mcur, advN>>
        ELSE s2c # <<>> /\ mcur' = Head(s2c) /\ s2c' = Tail(s2c) /\ mpc' = "lookup"
   /\ UNCHANGED <<c2s, nextId, idOf, muxLock, reg, respCh, respDone, rErr, cReadFailed, upc, ures,
                  spc, sop, nsent, closed, cancelled, sres, rpc, rcur, sctx, rdone, rterm, rChClosed, prot,
                  gotTrailer, srpc, srcur, srvLock, sreg, sch, hctx, hdoneSig, connCtx, wpc, wcur, wrpc, wrcur,
-                 hpc, hrecv, hsentN, hres, hsawEOF, waitFor, sReadFailed, stopped, serveRet>>
+                 hpc, hrecv, hsentN, hres, hsawEOF, waitFor, sReadFailed, stopped, serveRet, advN>>
 
 \* look the call up under the lock; D7c: release it before the hand-off
 MuxLookup ==
@@ -204,7 +208,7 @@ MuxLookup ==
   /\ UNCHANGED <<c2s, s2c, nextId, idOf, reg, respCh, respDone, rErr, mcur, cReadFailed, upc, ures,
                  spc, sop, nsent, closed, cancelled, sres, rpc, rcur, sctx, rdone, rterm, rChClosed, prot,
                  gotTrailer, srpc, srcur, srvLock, sreg, sch, hctx, hdoneSig, connCtx, wpc, wcur, wrpc, wrcur,
-                 hpc, hrecv, hsentN, hres, hsawEOF, waitFor, sReadFailed, stopped, serveRet>>
+                 hpc, hrecv, hsentN, hres, hsawEOF, waitFor, sReadFailed, stopped, serveRet, advN>>
 
 \* select { ch <- rpc ; <-done }   (before D7c: ch <- rpc only, holding the lock)
 MuxHandoff ==
@@ -218,7 +222,7 @@ MuxHandoff ==
   /\ UNCHANGED <<c2s, s2c, nextId, idOf, reg, respDone, rErr, mcur, cReadFailed, upc, ures,
                  spc, sop, nsent, closed, cancelled, sres, rpc, rcur, sctx, rdone, rterm, rChClosed, prot,
                  gotTrailer, srpc, srcur, srvLock, sreg, sch, hctx, hdoneSig, connCtx, wpc, wcur, wrpc, wrcur,
-                 hpc, hrecv, hsentN, hres, hsawEOF, waitFor, sReadFailed, stopped, serveRet>>
+                 hpc, hrecv, hsentN, hres, hsawEOF, waitFor, sReadFailed, stopped, serveRet, advN>>
 
 \* closeError: record the error, wake and drop every registered call
 MuxFail ==
@@ -228,7 +232,7 @@ MuxFail ==
   /\ UNCHANGED <<c2s, s2c, nextId, idOf, muxLock, respCh, mcur, cReadFailed, upc, ures,
                  spc, sop, nsent, closed, cancelled, sres, rpc, rcur, sctx, rdone, rterm, rChClosed, prot,
                  gotTrailer, srpc, srcur, srvLock, sreg, sch, hctx, hdoneSig, connCtx, wpc, wcur, wrpc, wrcur,
-                 hpc, hrecv, hsentN, hres, hsawEOF, waitFor, sReadFailed, stopped, serveRet>>
+                 hpc, hrecv, hsentN, hres, hsawEOF, waitFor, sReadFailed, stopped, serveRet, advN>>
 
 -----------------------------------------------------------------------------
 (* Streaming call: the user's goroutine (client.go newStream, stream.go       *)
@@ -240,19 +244,19 @@ SCheck(c) ==
   /\ UNCHANGED <<c2s, s2c, nextId, idOf, muxLock, reg, respCh, respDone, rErr, mpc, mcur, cReadFailed, upc, ures,
                  sop, nsent, closed, cancelled, sres, rpc, rcur, sctx, rdone, rterm, rChClosed, prot,
                  gotTrailer, srpc, srcur, srvLock, sreg, sch, hctx, hdoneSig, connCtx, wpc, wcur, wrpc, wrcur,
-                 hpc, hrecv, hsentN, hres, hsawEOF, waitFor, sReadFailed, stopped, serveRet>>
+                 hpc, hrecv, hsentN, hres, hsawEOF, waitFor, sReadFailed, stopped, serveRet, advN>>
 
 SRegister(c) ==
   /\ spc[c] = "reg" /\ muxLock = Free
   /\ IF Fixed("D5") /\ rErr
-       THEN spc' = [spc EXCEPT ![c] = "done"] /\ UNCHANGED <<nextId, idOf, reg>>
+       THEN spc' = [spc EXCEPT ![c] = "done"] /\ UNCHANGED <<nextId, idOf, reg, advN>>
        ELSE /\ idOf' = [idOf EXCEPT ![c] = nextId] /\ nextId' = nextId + 1
             /\ reg' = reg \cup {nextId}
             /\ spc' = [spc EXCEPT ![c] = "open"]
   /\ UNCHANGED <<c2s, s2c, muxLock, respCh, respDone, rErr, mpc, mcur, cReadFailed, upc, ures,
                  sop, nsent, closed, cancelled, sres, rpc, rcur, sctx, rdone, rterm, rChClosed, prot,
                  gotTrailer, srpc, srcur, srvLock, sreg, sch, hctx, hdoneSig, connCtx, wpc, wcur, wrpc, wrcur,
-                 hpc, hrecv, hsentN, hres, hsawEOF, waitFor, sReadFailed, stopped, serveRet>>
+                 hpc, hrecv, hsentN, hres, hsawEOF, waitFor, sReadFailed, stopped, serveRet, advN>>
 
 \* the open envelope is written and the stream's read loop starts
 SOpen(c) ==
@@ -262,7 +266,7 @@ SOpen(c) ==
   /\ UNCHANGED <<s2c, nextId, idOf, muxLock, reg, respCh, respDone, rErr, mpc, mcur, cReadFailed, upc, ures,
                  sop, nsent, closed, cancelled, sres, rcur, sctx, rdone, rterm, rChClosed, prot,
                  gotTrailer, srpc, srcur, srvLock, sreg, sch, hctx, hdoneSig, connCtx, wpc, wcur, wrpc, wrcur,
-                 hpc, hrecv, hsentN, hres, hsawEOF, waitFor, sReadFailed, stopped, serveRet>>
+                 hpc, hrecv, hsentN, hres, hsawEOF, waitFor, sReadFailed, stopped, serveRet, advN>>
 
 Terminal(c) == sres[c] # <<>> /\ sres[c][Len(sres[c])] \in {"eof", "err", "canceled"}
 
@@ -278,7 +282,7 @@ SChoose(c) ==
   /\ UNCHANGED <<c2s, s2c, nextId, idOf, muxLock, reg, respCh, respDone, rErr, mpc, mcur, cReadFailed, upc, ures,
                  nsent, closed, cancelled, sres, rpc, rcur, sctx, rdone, rterm, rChClosed, prot,
                  gotTrailer, srpc, srcur, srvLock, sreg, sch, hctx, hdoneSig, connCtx, wpc, wcur, wrpc, wrcur,
-                 hpc, hrecv, hsentN, hres, hsawEOF, waitFor, sReadFailed, stopped, serveRet>>
+                 hpc, hrecv, hsentN, hres, hsawEOF, waitFor, sReadFailed, stopped, serveRet, advN>>
 
 \* readErrorIfDone (needs cs.protected)
 SOpCheck(c) ==
@@ -288,11 +292,11 @@ SOpCheck(c) ==
             /\ nsent' = [nsent EXCEPT ![c] = IF sop[c] = "send" THEN MaxC ELSE @]   \* a failed send ends sending
             /\ spc' = [spc EXCEPT ![c] = "run"]
        ELSE /\ spc' = [spc EXCEPT ![c] = IF sop[c] = "recv" THEN "recvsel" ELSE "sendw"]
-            /\ UNCHANGED <<sres, nsent>>
+            /\ UNCHANGED <<sres, nsent, advN>>
   /\ UNCHANGED <<c2s, s2c, nextId, idOf, muxLock, reg, respCh, respDone, rErr, mpc, mcur, cReadFailed, upc, ures,
                  sop, closed, cancelled, rpc, rcur, sctx, rdone, rterm, rChClosed, prot,
                  gotTrailer, srpc, srcur, srvLock, sreg, sch, hctx, hdoneSig, connCtx, wpc, wcur, wrpc, wrcur,
-                 hpc, hrecv, hsentN, hres, hsawEOF, waitFor, sReadFailed, stopped, serveRet>>
+                 hpc, hrecv, hsentN, hres, hsawEOF, waitFor, sReadFailed, stopped, serveRet, advN>>
 
 \* rw.Write(cs.ctx, body): fails when the stream context is done (then teardown(false): cancel)
 SSendWrite(c) ==
@@ -304,7 +308,7 @@ SSendWrite(c) ==
   /\ UNCHANGED <<s2c, nextId, idOf, muxLock, reg, respCh, respDone, rErr, mpc, mcur, cReadFailed, upc, ures,
                  sop, closed, cancelled, sres, rpc, rcur, sctx, rdone, rterm, rChClosed, prot,
                  gotTrailer, srpc, srcur, srvLock, sreg, sch, hctx, hdoneSig, connCtx, wpc, wcur, wrpc, wrcur,
-                 hpc, hrecv, hsentN, hres, hsawEOF, waitFor, sReadFailed, stopped, serveRet>>
+                 hpc, hrecv, hsentN, hres, hsawEOF, waitFor, sReadFailed, stopped, serveRet, advN>>
 
 SCloseWrite(c) ==
   /\ spc[c] = "closew"
@@ -314,7 +318,7 @@ SCloseWrite(c) ==
   /\ UNCHANGED <<s2c, nextId, idOf, muxLock, reg, respCh, respDone, rErr, mpc, mcur, cReadFailed, upc, ures,
                  sop, nsent, cancelled, sres, rpc, rcur, sctx, rdone, rterm, rChClosed, prot,
                  gotTrailer, srpc, srcur, srvLock, sreg, sch, hctx, hdoneSig, connCtx, wpc, wcur, wrpc, wrcur,
-                 hpc, hrecv, hsentN, hres, hsawEOF, waitFor, sReadFailed, stopped, serveRet>>
+                 hpc, hrecv, hsentN, hres, hsawEOF, waitFor, sReadFailed, stopped, serveRet, advN>>
 
 \* RecvMsg's select { ctx.Done ; rCh }.  The rCh hand-off is the joint action RlHandoff below.
 \* D1: in the ctx branch re-check the terminal state (needs cs.protected) before reporting the context.
@@ -328,7 +332,7 @@ SRecvCtx(c) ==
   /\ UNCHANGED <<c2s, s2c, nextId, idOf, muxLock, reg, respCh, respDone, rErr, mpc, mcur, cReadFailed, upc, ures,
                  sop, nsent, closed, cancelled, rpc, rcur, sctx, rdone, rterm, rChClosed, prot,
                  gotTrailer, srpc, srcur, srvLock, sreg, sch, hctx, hdoneSig, connCtx, wpc, wcur, wrpc, wrcur,
-                 hpc, hrecv, hsentN, hres, hsawEOF, waitFor, sReadFailed, stopped, serveRet>>
+                 hpc, hrecv, hsentN, hres, hsawEOF, waitFor, sReadFailed, stopped, serveRet, advN>>
 
 \* rCh closed: report the terminal result (readErrorIfDone needs cs.protected)
 SRecvClosed(c) ==
@@ -338,7 +342,7 @@ SRecvClosed(c) ==
   /\ UNCHANGED <<c2s, s2c, nextId, idOf, muxLock, reg, respCh, respDone, rErr, mpc, mcur, cReadFailed, upc, ures,
                  sop, nsent, closed, cancelled, rpc, rcur, sctx, rdone, rterm, rChClosed, prot,
                  gotTrailer, srpc, srcur, srvLock, sreg, sch, hctx, hdoneSig, connCtx, wpc, wcur, wrpc, wrcur,
-                 hpc, hrecv, hsentN, hres, hsawEOF, waitFor, sReadFailed, stopped, serveRet>>
+                 hpc, hrecv, hsentN, hres, hsawEOF, waitFor, sReadFailed, stopped, serveRet, advN>>
 
 -----------------------------------------------------------------------------
 (* Streaming call: the stream's read loop (stream.go readLoop and its defer)  *)
@@ -350,14 +354,14 @@ RlRead(c) ==
      \/ /\ respCh[id] # <<>>
         /\ rcur' = [rcur EXCEPT ![c] = Head(respCh[id])] /\ respCh' = [respCh EXCEPT ![id] = Tail(@)]
         /\ rpc' = [rpc EXCEPT ![c] = "classify"] /\ UNCHANGED rterm
-     \/ /\ id \in respDone /\ UNCHANGED <<rcur, respCh>>
+     \/ /\ id \in respDone /\ UNCHANGED <<rcur, respCh, advN>>
         /\ rterm' = [rterm EXCEPT ![c] = "err"] /\ rpc' = [rpc EXCEPT ![c] = "xlock"]
-     \/ /\ sctx[c] /\ UNCHANGED <<rcur, respCh>>
+     \/ /\ sctx[c] /\ UNCHANGED <<rcur, respCh, advN>>
         /\ rterm' = [rterm EXCEPT ![c] = "canceled"] /\ rpc' = [rpc EXCEPT ![c] = "xlock"]
   /\ UNCHANGED <<c2s, s2c, nextId, idOf, muxLock, reg, respDone, rErr, mpc, mcur, cReadFailed, upc, ures,
                  spc, sop, nsent, closed, cancelled, sres, sctx, rdone, rChClosed, prot,
                  gotTrailer, srpc, srcur, srvLock, sreg, sch, hctx, hdoneSig, connCtx, wpc, wcur, wrpc, wrcur,
-                 hpc, hrecv, hsentN, hres, hsawEOF, waitFor, sReadFailed, stopped, serveRet>>
+                 hpc, hrecv, hsentN, hres, hsawEOF, waitFor, sReadFailed, stopped, serveRet, advN>>
 
 RlClassify(c) ==
   /\ rpc[c] = "classify"
@@ -367,11 +371,11 @@ RlClassify(c) ==
             /\ gotTrailer' = [gotTrailer EXCEPT ![c] = TRUE]
             /\ rpc' = [rpc EXCEPT ![c] = "xlock"]
        ELSE /\ rpc' = [rpc EXCEPT ![c] = IF k = "body" THEN "handoff" ELSE "read"]
-            /\ UNCHANGED <<rterm, gotTrailer>>
+            /\ UNCHANGED <<rterm, gotTrailer, advN>>
   /\ UNCHANGED <<c2s, s2c, nextId, idOf, muxLock, reg, respCh, respDone, rErr, mpc, mcur, cReadFailed, upc, ures,
                  spc, sop, nsent, closed, cancelled, sres, rcur, sctx, rdone, rChClosed, prot,
                  srpc, srcur, srvLock, sreg, sch, hctx, hdoneSig, connCtx, wpc, wcur, wrpc, wrcur,
-                 hpc, hrecv, hsentN, hres, hsawEOF, waitFor, sReadFailed, stopped, serveRet>>
+                 hpc, hrecv, hsentN, hres, hsawEOF, waitFor, sReadFailed, stopped, serveRet, advN>>
 
 \* select { cs.rCh <- body (rendezvous with a RecvMsg in its select) ; ctx }
 RlHandoff(c) ==
@@ -382,11 +386,11 @@ RlHandoff(c) ==
         /\ rpc' = [rpc EXCEPT ![c] = "read"] /\ UNCHANGED rterm
      \/ /\ sctx[c]
         /\ rterm' = [rterm EXCEPT ![c] = "canceled"] /\ rpc' = [rpc EXCEPT ![c] = "xlock"]
-        /\ UNCHANGED <<sres, spc>>
+        /\ UNCHANGED <<sres, spc, advN>>
   /\ UNCHANGED <<c2s, s2c, nextId, idOf, muxLock, reg, respCh, respDone, rErr, mpc, mcur, cReadFailed, upc, ures,
                  sop, nsent, closed, cancelled, rcur, sctx, rdone, rChClosed, prot,
                  gotTrailer, srpc, srcur, srvLock, sreg, sch, hctx, hdoneSig, connCtx, wpc, wcur, wrpc, wrcur,
-                 hpc, hrecv, hsentN, hres, hsawEOF, waitFor, sReadFailed, stopped, serveRet>>
+                 hpc, hrecv, hsentN, hres, hsawEOF, waitFor, sReadFailed, stopped, serveRet, advN>>
 
 \* the deferred block: lock cs.protected; close(rCh); [RST]; unregister; cancel; done = true; unlock
 RlExitLock(c) ==
@@ -396,7 +400,7 @@ RlExitLock(c) ==
   /\ UNCHANGED <<c2s, s2c, nextId, idOf, muxLock, reg, respCh, respDone, rErr, mpc, mcur, cReadFailed, upc, ures,
                  spc, sop, nsent, closed, cancelled, sres, rcur, sctx, rdone, rterm,
                  gotTrailer, srpc, srcur, srvLock, sreg, sch, hctx, hdoneSig, connCtx, wpc, wcur, wrpc, wrcur,
-                 hpc, hrecv, hsentN, hres, hsawEOF, waitFor, sReadFailed, stopped, serveRet>>
+                 hpc, hrecv, hsentN, hres, hsawEOF, waitFor, sReadFailed, stopped, serveRet, advN>>
 
 RlExitRst(c) ==
   /\ rpc[c] = "xrst"
@@ -405,7 +409,7 @@ RlExitRst(c) ==
   /\ UNCHANGED <<s2c, nextId, idOf, muxLock, reg, respCh, respDone, rErr, mpc, mcur, cReadFailed, upc, ures,
                  spc, sop, nsent, closed, cancelled, sres, rcur, sctx, rdone, rterm, rChClosed, prot,
                  gotTrailer, srpc, srcur, srvLock, sreg, sch, hctx, hdoneSig, connCtx, wpc, wcur, wrpc, wrcur,
-                 hpc, hrecv, hsentN, hres, hsawEOF, waitFor, sReadFailed, stopped, serveRet>>
+                 hpc, hrecv, hsentN, hres, hsawEOF, waitFor, sReadFailed, stopped, serveRet, advN>>
 
 RlExitUnreg(c) ==
   /\ rpc[c] = "xunreg" /\ muxLock = Free
@@ -416,7 +420,7 @@ RlExitUnreg(c) ==
   /\ UNCHANGED <<c2s, s2c, nextId, idOf, muxLock, respCh, rErr, mpc, mcur, cReadFailed, upc, ures,
                  spc, sop, nsent, closed, cancelled, sres, rcur, rdone, rterm, rChClosed, prot,
                  gotTrailer, srpc, srcur, srvLock, sreg, sch, hctx, hdoneSig, connCtx, wpc, wcur, wrpc, wrcur,
-                 hpc, hrecv, hsentN, hres, hsawEOF, waitFor, sReadFailed, stopped, serveRet>>
+                 hpc, hrecv, hsentN, hres, hsawEOF, waitFor, sReadFailed, stopped, serveRet, advN>>
 
 RlExitDone(c) ==
   /\ rpc[c] = "xdone"
@@ -425,7 +429,7 @@ RlExitDone(c) ==
   /\ UNCHANGED <<c2s, s2c, nextId, idOf, muxLock, reg, respCh, respDone, rErr, mpc, mcur, cReadFailed, upc, ures,
                  spc, sop, nsent, closed, cancelled, sres, rcur, sctx, rterm, rChClosed,
                  gotTrailer, srpc, srcur, srvLock, sreg, sch, hctx, hdoneSig, connCtx, wpc, wcur, wrpc, wrcur,
-                 hpc, hrecv, hsentN, hres, hsawEOF, waitFor, sReadFailed, stopped, serveRet>>
+                 hpc, hrecv, hsentN, hres, hsawEOF, waitFor, sReadFailed, stopped, serveRet, advN>>
 
 -----------------------------------------------------------------------------
 (* Server read loop (server.go serve / processStreamingRpc / resetStream)     *)
@@ -433,13 +437,13 @@ RlExitDone(c) ==
 SrvRead ==
   /\ srpc = "read"
   /\ IF sReadFailed \/ connCtx
-       THEN srpc' = "exit" /\ UNCHANGED <<c2s, srcur>>
+       THEN srpc' = "exit" /\ UNCHANGED <<c2s, srcur, advN>>
        ELSE c2s # <<>> /\ srcur' = Head(c2s) /\ c2s' = Tail(c2s)
             /\ srpc' = IF Head(c2s).k = "req" THEN "toworker" ELSE "lock"
   /\ UNCHANGED <<s2c, nextId, idOf, muxLock, reg, respCh, respDone, rErr, mpc, mcur, cReadFailed, upc, ures,
                  spc, sop, nsent, closed, cancelled, sres, rpc, rcur, sctx, rdone, rterm, rChClosed, prot,
                  gotTrailer, srvLock, sreg, sch, hctx, hdoneSig, connCtx, wpc, wcur, wrpc, wrcur,
-                 hpc, hrecv, hsentN, hres, hsawEOF, waitFor, sReadFailed, stopped, serveRet>>
+                 hpc, hrecv, hsentN, hres, hsawEOF, waitFor, sReadFailed, stopped, serveRet, advN>>
 
 \* select { unaryRpcChan <- args (rendezvous with an idle worker) ; h.ctx }
 SrvToWorker ==
@@ -447,31 +451,36 @@ SrvToWorker ==
   /\ \/ \E w \in Workers : /\ wpc[w] = "take" /\ ~connCtx
                           /\ wpc' = [wpc EXCEPT ![w] = "run"] /\ wcur' = [wcur EXCEPT ![w] = srcur]
                           /\ srpc' = "read"
-     \/ connCtx /\ srpc' = "exit" /\ UNCHANGED <<wpc, wcur>>
+     \/ connCtx /\ srpc' = "exit" /\ UNCHANGED <<wpc, wcur, advN>>
   /\ UNCHANGED <<c2s, s2c, nextId, idOf, muxLock, reg, respCh, respDone, rErr, mpc, mcur, cReadFailed, upc, ures,
                  spc, sop, nsent, closed, cancelled, sres, rpc, rcur, sctx, rdone, rterm, rChClosed, prot,
                  gotTrailer, srcur, srvLock, sreg, sch, hctx, hdoneSig, connCtx, wrpc, wrcur,
-                 hpc, hrecv, hsentN, hres, hsawEOF, waitFor, sReadFailed, stopped, serveRet>>
+                 hpc, hrecv, hsentN, hres, hsawEOF, waitFor, sReadFailed, stopped, serveRet, advN>>
 
 \* processStreamingRpc: take h.mu and classify
 SrvLockClassify ==
   /\ srpc = "lock" /\ srvLock = Free
   /\ LET id == srcur.id
-         k == srcur.k IN
+         k == srcur.k
+         same == UNCHANGED <<hrecv, hsentN, hres, hsawEOF, hdoneSig>> IN
      IF id \in sreg
        THEN IF k = "rst"
-              THEN hctx' = hctx \cup {id} /\ srpc' = "read" /\ UNCHANGED <<srvLock, sreg, hpc>>
-              ELSE srvLock' = "sr" /\ srpc' = "forward" /\ UNCHANGED <<hctx, sreg, hpc>>
+              THEN hctx' = hctx \cup {id} /\ srpc' = "read" /\ UNCHANGED <<srvLock, sreg, hpc>> /\ same
+              ELSE srvLock' = "sr" /\ srpc' = "forward" /\ UNCHANGED <<hctx, sreg, hpc>> /\ same
        ELSE IF k = "body"
-              THEN srvLock' = "sr" /\ srpc' = "reset" /\ UNCHANGED <<hctx, sreg, hpc>>
-            ELSE IF k = "open"
-              THEN /\ sreg' = sreg \cup {id} /\ hpc' = [hpc EXCEPT ![id] = "run"]
-                   /\ srpc' = "read" /\ UNCHANGED <<srvLock, hctx>>
-            ELSE srpc' = "read" /\ UNCHANGED <<srvLock, hctx, sreg, hpc>>   \* close / reset for an unknown stream
+              THEN srvLock' = "sr" /\ srpc' = "reset" /\ UNCHANGED <<hctx, sreg, hpc>> /\ same
+            ELSE IF k = "open" /\ id \in Ids
+              THEN \* a fresh handler incarnation for this id
+                   /\ sreg' = sreg \cup {id} /\ hpc' = [hpc EXCEPT ![id] = "run"]
+                   /\ hctx' = hctx \ {id} /\ hdoneSig' = hdoneSig \ {id}
+                   /\ hrecv' = [hrecv EXCEPT ![id] = 0] /\ hsentN' = [hsentN EXCEPT ![id] = 0]
+                   /\ hres' = [hres EXCEPT ![id] = ""] /\ hsawEOF' = [hsawEOF EXCEPT ![id] = FALSE]
+                   /\ srpc' = "read" /\ UNCHANGED srvLock
+            ELSE srpc' = "read" /\ UNCHANGED <<srvLock, hctx, sreg, hpc>> /\ same  \* close / reset for an unknown stream
   /\ UNCHANGED <<c2s, s2c, nextId, idOf, muxLock, reg, respCh, respDone, rErr, mpc, mcur, cReadFailed, upc, ures,
                  spc, sop, nsent, closed, cancelled, sres, rpc, rcur, sctx, rdone, rterm, rChClosed, prot,
-                 gotTrailer, srcur, sch, hdoneSig, connCtx, wpc, wcur, wrpc, wrcur,
-                 hrecv, hsentN, hres, hsawEOF, waitFor, sReadFailed, stopped, serveRet>>
+                 gotTrailer, srcur, sch, connCtx, wpc, wcur, wrpc, wrcur,
+                 waitFor, sReadFailed, stopped, serveRet, advN>>
 
 \* select { handler.ch <- rpc ; handler ctx (D7s) ; h.ctx }  - holding h.mu
 SrvForward ==
@@ -484,20 +493,20 @@ SrvForward ==
   /\ UNCHANGED <<c2s, s2c, nextId, idOf, muxLock, reg, respCh, respDone, rErr, mpc, mcur, cReadFailed, upc, ures,
                  spc, sop, nsent, closed, cancelled, sres, rpc, rcur, sctx, rdone, rterm, rChClosed, prot,
                  gotTrailer, srcur, sreg, hctx, hdoneSig, connCtx, wpc, wcur, wrpc, wrcur,
-                 hpc, hrecv, hsentN, hres, hsawEOF, waitFor, sReadFailed, stopped, serveRet>>
+                 hpc, hrecv, hsentN, hres, hsawEOF, waitFor, sReadFailed, stopped, serveRet, advN>>
 
 \* resetStream - holding h.mu.  D4: through the writer; before: written directly by the read loop
 SrvReset ==
   /\ srpc = "reset"
   /\ IF Fixed("D4")
        THEN \/ WriterTakes(Env(srcur.id, "rst")) /\ srpc' = "read" /\ UNCHANGED s2c
-            \/ connCtx /\ srpc' = "exit" /\ UNCHANGED <<s2c, wrpc, wrcur>>
-       ELSE s2c' = Append(s2c, Env(srcur.id, "rst")) /\ srpc' = "read" /\ UNCHANGED <<wrpc, wrcur>>
+            \/ connCtx /\ srpc' = "exit" /\ UNCHANGED <<s2c, wrpc, wrcur, advN>>
+       ELSE s2c' = Append(s2c, Env(srcur.id, "rst")) /\ srpc' = "read" /\ UNCHANGED <<wrpc, wrcur, advN>>
   /\ srvLock' = Free
   /\ UNCHANGED <<c2s, nextId, idOf, muxLock, reg, respCh, respDone, rErr, mpc, mcur, cReadFailed, upc, ures,
                  spc, sop, nsent, closed, cancelled, sres, rpc, rcur, sctx, rdone, rterm, rChClosed, prot,
                  gotTrailer, srcur, sreg, sch, hctx, hdoneSig, connCtx, wpc, wcur,
-                 hpc, hrecv, hsentN, hres, hsawEOF, waitFor, sReadFailed, stopped, serveRet>>
+                 hpc, hrecv, hsentN, hres, hsawEOF, waitFor, sReadFailed, stopped, serveRet, advN>>
 
 \* serve returns: cancel the connection context, then cancelAndWaitForStreams
 SrvExit ==
@@ -506,17 +515,17 @@ SrvExit ==
   /\ UNCHANGED <<c2s, s2c, nextId, idOf, muxLock, reg, respCh, respDone, rErr, mpc, mcur, cReadFailed, upc, ures,
                  spc, sop, nsent, closed, cancelled, sres, rpc, rcur, sctx, rdone, rterm, rChClosed, prot,
                  gotTrailer, srcur, srvLock, sreg, sch, hctx, hdoneSig, wpc, wcur, wrpc, wrcur,
-                 hpc, hrecv, hsentN, hres, hsawEOF, waitFor, sReadFailed, stopped, serveRet>>
+                 hpc, hrecv, hsentN, hres, hsawEOF, waitFor, sReadFailed, stopped, serveRet, advN>>
 
 SrvCancelAndWait ==
   /\ srpc = "cwlock" /\ srvLock = Free
   /\ IF sreg = {}
-       THEN srpc' = "end" /\ serveRet' = TRUE /\ UNCHANGED <<hctx, waitFor>>
+       THEN srpc' = "end" /\ serveRet' = TRUE /\ UNCHANGED <<hctx, waitFor, advN>>
        ELSE \E id \in sreg : hctx' = hctx \cup {id} /\ waitFor' = id /\ srpc' = "cwwait" /\ UNCHANGED serveRet
   /\ UNCHANGED <<c2s, s2c, nextId, idOf, muxLock, reg, respCh, respDone, rErr, mpc, mcur, cReadFailed, upc, ures,
                  spc, sop, nsent, closed, cancelled, sres, rpc, rcur, sctx, rdone, rterm, rChClosed, prot,
                  gotTrailer, srcur, srvLock, sreg, sch, hdoneSig, connCtx, wpc, wcur, wrpc, wrcur,
-                 hpc, hrecv, hsentN, hres, hsawEOF, sReadFailed, stopped>>
+                 hpc, hrecv, hsentN, hres, hsawEOF, sReadFailed, stopped, advN>>
 
 SrvWaitDone ==
   /\ srpc = "cwwait" /\ waitFor \in hdoneSig
@@ -524,7 +533,7 @@ SrvWaitDone ==
   /\ UNCHANGED <<c2s, s2c, nextId, idOf, muxLock, reg, respCh, respDone, rErr, mpc, mcur, cReadFailed, upc, ures,
                  spc, sop, nsent, closed, cancelled, sres, rpc, rcur, sctx, rdone, rterm, rChClosed, prot,
                  gotTrailer, srcur, srvLock, sreg, sch, hctx, hdoneSig, connCtx, wpc, wcur, wrpc, wrcur,
-                 hpc, hrecv, hsentN, hres, hsawEOF, waitFor, sReadFailed, stopped, serveRet>>
+                 hpc, hrecv, hsentN, hres, hsawEOF, waitFor, sReadFailed, stopped, serveRet, advN>>
 
 -----------------------------------------------------------------------------
 (* Unary workers and the writer                                              *)
@@ -536,17 +545,17 @@ WkRun(w) ==
   /\ UNCHANGED <<c2s, s2c, nextId, idOf, muxLock, reg, respCh, respDone, rErr, mpc, mcur, cReadFailed, upc, ures,
                  spc, sop, nsent, closed, cancelled, sres, rpc, rcur, sctx, rdone, rterm, rChClosed, prot,
                  gotTrailer, srpc, srcur, srvLock, sreg, sch, hctx, hdoneSig, connCtx, wrpc, wrcur,
-                 hpc, hrecv, hsentN, hres, hsawEOF, waitFor, sReadFailed, stopped, serveRet>>
+                 hpc, hrecv, hsentN, hres, hsawEOF, waitFor, sReadFailed, stopped, serveRet, advN>>
 
 \* h.writeChan <- resp ; D6: select with the connection context
 WkHandoff(w) ==
   /\ wpc[w] = "handoff"
   /\ \/ WriterTakes(wcur[w]) /\ wpc' = [wpc EXCEPT ![w] = "take"]
-     \/ Fixed("D6") /\ connCtx /\ wpc' = [wpc EXCEPT ![w] = "end"] /\ UNCHANGED <<wrpc, wrcur>>
+     \/ Fixed("D6") /\ connCtx /\ wpc' = [wpc EXCEPT ![w] = "end"] /\ UNCHANGED <<wrpc, wrcur, advN>>
   /\ UNCHANGED <<c2s, s2c, nextId, idOf, muxLock, reg, respCh, respDone, rErr, mpc, mcur, cReadFailed, upc, ures,
                  spc, sop, nsent, closed, cancelled, sres, rpc, rcur, sctx, rdone, rterm, rChClosed, prot,
                  gotTrailer, srpc, srcur, srvLock, sreg, sch, hctx, hdoneSig, connCtx, wcur,
-                 hpc, hrecv, hsentN, hres, hsawEOF, waitFor, sReadFailed, stopped, serveRet>>
+                 hpc, hrecv, hsentN, hres, hsawEOF, waitFor, sReadFailed, stopped, serveRet, advN>>
 
 WkExit(w) ==
   /\ wpc[w] = "take" /\ connCtx
@@ -554,7 +563,7 @@ WkExit(w) ==
   /\ UNCHANGED <<c2s, s2c, nextId, idOf, muxLock, reg, respCh, respDone, rErr, mpc, mcur, cReadFailed, upc, ures,
                  spc, sop, nsent, closed, cancelled, sres, rpc, rcur, sctx, rdone, rterm, rChClosed, prot,
                  gotTrailer, srpc, srcur, srvLock, sreg, sch, hctx, hdoneSig, connCtx, wcur, wrpc, wrcur,
-                 hpc, hrecv, hsentN, hres, hsawEOF, waitFor, sReadFailed, stopped, serveRet>>
+                 hpc, hrecv, hsentN, hres, hsawEOF, waitFor, sReadFailed, stopped, serveRet, advN>>
 
 WrWrite ==
   /\ wrpc = "write"
@@ -562,7 +571,7 @@ WrWrite ==
   /\ UNCHANGED <<c2s, nextId, idOf, muxLock, reg, respCh, respDone, rErr, mpc, mcur, cReadFailed, upc, ures,
                  spc, sop, nsent, closed, cancelled, sres, rpc, rcur, sctx, rdone, rterm, rChClosed, prot,
                  gotTrailer, srpc, srcur, srvLock, sreg, sch, hctx, hdoneSig, connCtx, wpc, wcur, wrcur,
-                 hpc, hrecv, hsentN, hres, hsawEOF, waitFor, sReadFailed, stopped, serveRet>>
+                 hpc, hrecv, hsentN, hres, hsawEOF, waitFor, sReadFailed, stopped, serveRet, advN>>
 
 WrExit ==
   /\ wrpc = "take" /\ connCtx
@@ -570,7 +579,7 @@ WrExit ==
   /\ UNCHANGED <<c2s, s2c, nextId, idOf, muxLock, reg, respCh, respDone, rErr, mpc, mcur, cReadFailed, upc, ures,
                  spc, sop, nsent, closed, cancelled, sres, rpc, rcur, sctx, rdone, rterm, rChClosed, prot,
                  gotTrailer, srpc, srcur, srvLock, sreg, sch, hctx, hdoneSig, connCtx, wpc, wcur, wrcur,
-                 hpc, hrecv, hsentN, hres, hsawEOF, waitFor, sReadFailed, stopped, serveRet>>
+                 hpc, hrecv, hsentN, hres, hsawEOF, waitFor, sReadFailed, stopped, serveRet, advN>>
 
 -----------------------------------------------------------------------------
 (* Stream handlers (server.go runStream, internal/server/stream.go)           *)
@@ -585,7 +594,7 @@ HChoose(id) ==
   /\ UNCHANGED <<c2s, s2c, nextId, idOf, muxLock, reg, respCh, respDone, rErr, mpc, mcur, cReadFailed, upc, ures,
                  spc, sop, nsent, closed, cancelled, sres, rpc, rcur, sctx, rdone, rterm, rChClosed, prot,
                  gotTrailer, srpc, srcur, srvLock, sreg, sch, hctx, hdoneSig, connCtx, wpc, wcur, wrpc, wrcur,
-                 hrecv, hsentN, hsawEOF, waitFor, sReadFailed, stopped, serveRet>>
+                 hrecv, hsentN, hsawEOF, waitFor, sReadFailed, stopped, serveRet, advN>>
 
 \* select { <-handler.ch ; <-ctx.Done }
 HRecv(id) ==
@@ -594,33 +603,33 @@ HRecv(id) ==
         /\ hsawEOF' = [hsawEOF EXCEPT ![id] = Head(sch[id]).k = "close"]
         /\ hrecv' = [hrecv EXCEPT ![id] = IF Head(sch[id]).k = "body" THEN @ + 1 ELSE @]
         /\ sch' = [sch EXCEPT ![id] = Tail(@)]
-     \/ /\ id \in hctx /\ hsawEOF' = [hsawEOF EXCEPT ![id] = TRUE] /\ UNCHANGED <<hrecv, sch>>
+     \/ /\ id \in hctx /\ hsawEOF' = [hsawEOF EXCEPT ![id] = TRUE] /\ UNCHANGED <<hrecv, sch, advN>>
   /\ hpc' = [hpc EXCEPT ![id] = "run"]
   /\ UNCHANGED <<c2s, s2c, nextId, idOf, muxLock, reg, respCh, respDone, rErr, mpc, mcur, cReadFailed, upc, ures,
                  spc, sop, nsent, closed, cancelled, sres, rpc, rcur, sctx, rdone, rterm, rChClosed, prot,
                  gotTrailer, srpc, srcur, srvLock, sreg, hctx, hdoneSig, connCtx, wpc, wcur, wrpc, wrcur,
-                 hsentN, hres, waitFor, sReadFailed, stopped, serveRet>>
+                 hsentN, hres, waitFor, sReadFailed, stopped, serveRet, advN>>
 
 \* select { <-ctx.Done ; h.writeChan <- r }
 HSend(id) ==
   /\ hpc[id] = "send"
   /\ \/ WriterTakes(Env(id, "body")) /\ hsentN' = [hsentN EXCEPT ![id] = @ + 1]
-     \/ id \in hctx /\ hsentN' = [hsentN EXCEPT ![id] = MaxS] /\ UNCHANGED <<wrpc, wrcur>>
+     \/ id \in hctx /\ hsentN' = [hsentN EXCEPT ![id] = MaxS] /\ UNCHANGED <<wrpc, wrcur, advN>>
   /\ hpc' = [hpc EXCEPT ![id] = "run"]
   /\ UNCHANGED <<c2s, s2c, nextId, idOf, muxLock, reg, respCh, respDone, rErr, mpc, mcur, cReadFailed, upc, ures,
                  spc, sop, nsent, closed, cancelled, sres, rpc, rcur, sctx, rdone, rterm, rChClosed, prot,
                  gotTrailer, srpc, srcur, srvLock, sreg, sch, hctx, hdoneSig, connCtx, wpc, wcur,
-                 hrecv, hres, hsawEOF, waitFor, sReadFailed, stopped, serveRet>>
+                 hrecv, hres, hsawEOF, waitFor, sReadFailed, stopped, serveRet, advN>>
 
 HTrailer(id) ==
   /\ hpc[id] = "trailer"
   /\ \/ WriterTakes(Env(id, hres[id]))
-     \/ id \in hctx /\ UNCHANGED <<wrpc, wrcur>>
+     \/ id \in hctx /\ UNCHANGED <<wrpc, wrcur, advN>>
   /\ hpc' = [hpc EXCEPT ![id] = "cancel"]
   /\ UNCHANGED <<c2s, s2c, nextId, idOf, muxLock, reg, respCh, respDone, rErr, mpc, mcur, cReadFailed, upc, ures,
                  spc, sop, nsent, closed, cancelled, sres, rpc, rcur, sctx, rdone, rterm, rChClosed, prot,
                  gotTrailer, srpc, srcur, srvLock, sreg, sch, hctx, hdoneSig, connCtx, wpc, wcur,
-                 hrecv, hsentN, hres, hsawEOF, waitFor, sReadFailed, stopped, serveRet>>
+                 hrecv, hsentN, hres, hsawEOF, waitFor, sReadFailed, stopped, serveRet, advN>>
 
 \* the deferred handler.cancel() runs before the deferred unregisterStream
 HCancel(id) ==
@@ -629,7 +638,7 @@ HCancel(id) ==
   /\ UNCHANGED <<c2s, s2c, nextId, idOf, muxLock, reg, respCh, respDone, rErr, mpc, mcur, cReadFailed, upc, ures,
                  spc, sop, nsent, closed, cancelled, sres, rpc, rcur, sctx, rdone, rterm, rChClosed, prot,
                  gotTrailer, srpc, srcur, srvLock, sreg, sch, hdoneSig, connCtx, wpc, wcur, wrpc, wrcur,
-                 hrecv, hsentN, hres, hsawEOF, waitFor, sReadFailed, stopped, serveRet>>
+                 hrecv, hsentN, hres, hsawEOF, waitFor, sReadFailed, stopped, serveRet, advN>>
 
 HUnregister(id) ==
   /\ hpc[id] = "unreg" /\ srvLock = Free
@@ -638,7 +647,7 @@ HUnregister(id) ==
   /\ UNCHANGED <<c2s, s2c, nextId, idOf, muxLock, reg, respCh, respDone, rErr, mpc, mcur, cReadFailed, upc, ures,
                  spc, sop, nsent, closed, cancelled, sres, rpc, rcur, sctx, rdone, rterm, rChClosed, prot,
                  gotTrailer, srpc, srcur, srvLock, sch, hctx, connCtx, wpc, wcur, wrpc, wrcur,
-                 hrecv, hsentN, hres, hsawEOF, waitFor, sReadFailed, stopped, serveRet>>
+                 hrecv, hsentN, hres, hsawEOF, waitFor, sReadFailed, stopped, serveRet, advN>>
 
 -----------------------------------------------------------------------------
 (* Environment                                                               *)
@@ -649,7 +658,7 @@ CallerCancel(c) ==
   /\ UNCHANGED <<c2s, s2c, nextId, idOf, muxLock, reg, respCh, respDone, rErr, mpc, mcur, cReadFailed, upc, ures,
                  spc, sop, nsent, closed, sres, rpc, rcur, rdone, rterm, rChClosed, prot,
                  gotTrailer, srpc, srcur, srvLock, sreg, sch, hctx, hdoneSig, connCtx, wpc, wcur, wrpc, wrcur,
-                 hpc, hrecv, hsentN, hres, hsawEOF, waitFor, sReadFailed, stopped, serveRet>>
+                 hpc, hrecv, hsentN, hres, hsawEOF, waitFor, sReadFailed, stopped, serveRet, advN>>
 
 ClientReadFail ==
   /\ EnvReadFail /\ ~cReadFailed
@@ -657,7 +666,7 @@ ClientReadFail ==
   /\ UNCHANGED <<c2s, s2c, nextId, idOf, muxLock, reg, respCh, respDone, rErr, mpc, mcur, upc, ures,
                  spc, sop, nsent, closed, cancelled, sres, rpc, rcur, sctx, rdone, rterm, rChClosed, prot,
                  gotTrailer, srpc, srcur, srvLock, sreg, sch, hctx, hdoneSig, connCtx, wpc, wcur, wrpc, wrcur,
-                 hpc, hrecv, hsentN, hres, hsawEOF, waitFor, sReadFailed, stopped, serveRet>>
+                 hpc, hrecv, hsentN, hres, hsawEOF, waitFor, sReadFailed, stopped, serveRet, advN>>
 
 Stop ==
   /\ EnvStop /\ ~stopped
@@ -665,7 +674,7 @@ Stop ==
   /\ UNCHANGED <<c2s, s2c, nextId, idOf, muxLock, reg, respCh, respDone, rErr, mpc, mcur, cReadFailed, upc, ures,
                  spc, sop, nsent, closed, cancelled, sres, rpc, rcur, sctx, rdone, rterm, rChClosed, prot,
                  gotTrailer, srpc, srcur, srvLock, sreg, sch, hctx, hdoneSig, wpc, wcur, wrpc, wrcur,
-                 hpc, hrecv, hsentN, hres, hsawEOF, waitFor, sReadFailed, serveRet>>
+                 hpc, hrecv, hsentN, hres, hsawEOF, waitFor, sReadFailed, serveRet, advN>>
 
 \* A connection is closed as a whole: once Serve has returned the transport's owner closes it, so
 \* the client's reads fail; and once the client's reads have failed the server's will too.
@@ -675,14 +684,32 @@ PeerClosesAfterServe ==
   /\ UNCHANGED <<c2s, s2c, nextId, idOf, muxLock, reg, respCh, respDone, rErr, mpc, mcur, upc, ures,
                  spc, sop, nsent, closed, cancelled, sres, rpc, rcur, sctx, rdone, rterm, rChClosed, prot,
                  gotTrailer, srpc, srcur, srvLock, sreg, sch, hctx, hdoneSig, connCtx, wpc, wcur, wrpc, wrcur,
-                 hpc, hrecv, hsentN, hres, hsawEOF, waitFor, sReadFailed, stopped, serveRet>>
+                 hpc, hrecv, hsentN, hres, hsawEOF, waitFor, sReadFailed, stopped, serveRet, advN>>
 ServerSeesClose ==
   /\ cReadFailed /\ ~sReadFailed
   /\ sReadFailed' = TRUE
   /\ UNCHANGED <<c2s, s2c, nextId, idOf, muxLock, reg, respCh, respDone, rErr, mpc, mcur, cReadFailed, upc, ures,
                  spc, sop, nsent, closed, cancelled, sres, rpc, rcur, sctx, rdone, rterm, rChClosed, prot,
                  gotTrailer, srpc, srcur, srvLock, sreg, sch, hctx, hdoneSig, connCtx, wpc, wcur, wrpc, wrcur,
-                 hpc, hrecv, hsentN, hres, hsawEOF, waitFor, stopped, serveRet>>
+                 hpc, hrecv, hsentN, hres, hsawEOF, waitFor, stopped, serveRet, advN>>
+
+\* An adversarial peer: any envelope shape, for any small id, at any time.
+AdvSendsToServer ==
+  /\ advN < AdvClient
+  /\ \E id \in 1..2, k \in {"open", "body", "close", "rst", "req"} : c2s' = Append(c2s, Env(id, k))
+  /\ advN' = advN + 1
+  /\ UNCHANGED <<s2c, nextId, idOf, muxLock, reg, respCh, respDone, rErr, mpc, mcur, cReadFailed, upc, ures,
+                 spc, sop, nsent, closed, cancelled, sres, rpc, rcur, sctx, rdone, rterm, rChClosed, prot,
+                 gotTrailer, srpc, srcur, srvLock, sreg, sch, hctx, hdoneSig, connCtx, wpc, wcur, wrpc, wrcur,
+                 hpc, hrecv, hsentN, hres, hsawEOF, waitFor, sReadFailed, stopped, serveRet>>
+AdvSendsToClient ==
+  /\ advN < AdvServer
+  /\ \E id \in 1..3, k \in {"hdr", "body", "ok", "err", "rst", "resp", "uerr"} : s2c' = Append(s2c, Env(id, k))
+  /\ advN' = advN + 1
+  /\ UNCHANGED <<c2s, nextId, idOf, muxLock, reg, respCh, respDone, rErr, mpc, mcur, cReadFailed, upc, ures,
+                 spc, sop, nsent, closed, cancelled, sres, rpc, rcur, sctx, rdone, rterm, rChClosed, prot,
+                 gotTrailer, srpc, srcur, srvLock, sreg, sch, hctx, hdoneSig, connCtx, wpc, wcur, wrpc, wrcur,
+                 hpc, hrecv, hsentN, hres, hsawEOF, waitFor, sReadFailed, stopped, serveRet>>
 
 -----------------------------------------------------------------------------
 AllCallersDone == /\ \A c \in Unaries : upc[c] = "done"
@@ -705,6 +732,7 @@ Next ==
   \/ WrWrite \/ WrExit
   \/ \E i \in Ids : HChoose(i) \/ HRecv(i) \/ HSend(i) \/ HTrailer(i) \/ HCancel(i) \/ HUnregister(i)
   \/ ClientReadFail \/ Stop \/ PeerClosesAfterServe \/ ServerSeesClose
+  \/ AdvSendsToServer \/ AdvSendsToClient
   \/ Terminated
 
 Spec == Init /\ [][Next]_vars
@@ -718,13 +746,13 @@ UniqueIds == \A a, b \in Calls : a # b /\ idOf[a] # NoId => idOf[a] # idOf[b]
 
 \* C02: a stream the handler finished successfully is never reported as cancelled or failed to a caller
 \* that did not cancel, on a live connection - and io.EOF is reported only then
-EofOnlyOnOk == \A c \in Streams : \A i \in DOMAIN sres[c] :
+EofOnlyOnOk == AdvServer = 0 => \A c \in Streams : \A i \in DOMAIN sres[c] :
                   sres[c][i] = "eof" => idOf[c] # NoId /\ hres[idOf[c]] = "ok"
 NoCancelAfterSuccess == \A c \in Streams : \A i \in DOMAIN sres[c] :
                   sres[c][i] = "canceled" => cancelled[c]
 
 \* C06: the server's reset for a late message never precedes that stream's trailer on the wire
-ResetNotBeforeTrailer ==
+ResetNotBeforeTrailer == AdvServer = 0 =>
   \A i \in DOMAIN s2c : s2c[i].k = "rst" =>
      ~\E j \in DOMAIN s2c : j > i /\ s2c[j].id = s2c[i].id /\ s2c[j].k \in {"ok", "err"}
 ResetNotBeforeTrailerPending ==
